@@ -1,0 +1,25 @@
+//go:build verif
+
+package clock
+
+import "sync/atomic"
+
+const verifOn = true
+
+var verifNow atomic.Pointer[func() int64]
+
+// SetVerifNow installs a virtual clock (nil restores the real one).
+func SetVerifNow(f func() int64) {
+	if f == nil {
+		verifNow.Store(nil)
+		return
+	}
+	verifNow.Store(&f)
+}
+
+func verifNowNano() (int64, bool) {
+	if f := verifNow.Load(); f != nil {
+		return (*f)(), true
+	}
+	return 0, false
+}
